@@ -486,3 +486,33 @@ impl<const C: usize> VT for arrayvec::ArrayString<C> {
     }
     fn wire_len(&self) -> u128 { 8 + self.len() as u128 }
 }
+
+impl VT for std::net::SocketAddr {
+    fn any() -> Self { std::net::SocketAddr::V4(std::net::SocketAddrV4::new(std::net::Ipv4Addr::from_bits(anyv::<u32>()), anyv::<u16>())) }
+    fn enc(&self, out: &mut RefBuf) {
+        match self {
+            std::net::SocketAddr::V4(a) => { out.put(&[0u8]); out.put(&a.port().to_le_bytes()); out.put(&a.ip().to_bits().to_le_bytes()) }
+            std::net::SocketAddr::V6(a) => { out.put(&[1u8]); out.put(&a.port().to_le_bytes()); out.put(&a.ip().to_bits().to_le_bytes()); out.put(&a.flowinfo().to_le_bytes()); out.put(&a.scope_id().to_le_bytes()) }
+        }
+    }
+    fn same(&self, o: &Self) -> bool { *self == *o }
+    fn wire_len(&self) -> u128 { match self { std::net::SocketAddr::V4(_) => 7, std::net::SocketAddr::V6(_) => 27 } }
+}
+impl<K: VT + Ord, V: VT> VT for BTreeMap<K, V> {
+    fn any() -> Self { let mut m = BTreeMap::new(); if shape_len() >= 1 { m.insert(K::any(), V::any()); } m }
+    fn enc(&self, out: &mut RefBuf) {
+        out.put(&(self.len() as u64).to_le_bytes());
+        for (k, v) in self.iter() { k.enc(out); v.enc(out); }
+    }
+    fn same(&self, o: &Self) -> bool {
+        if self.len() != o.len() { return false; }
+        let mut it = o.iter();
+        for (k, v) in self.iter() {
+            match it.next() { Some((k2, v2)) => { if !k.same(k2) || !v.same(v2) { return false; } } None => return false }
+        }
+        true
+    }
+    fn wire_len(&self) -> u128 {
+        match (K::FIXED, V::FIXED) { (Some(a), Some(b)) => 8 + (self.len() as u128) * ((a + b) as u128), _ => 8 }
+    }
+}
